@@ -6,7 +6,7 @@ use clap_complete::aot::{generate, Shell};
 use std::io::Write as _;
 
 #[derive(Clone, Debug)]
-struct GA { help: Option<String>, id: String, short: Option<char>, long: Option<String>, vshorts: Vec<char>, vlongs: Vec<String>, takes: bool, positional: bool, pvs: Vec<(String, bool)>, hint: u8, global: bool }
+struct GA { optval: bool, multi: bool, required: bool, help: Option<String>, id: String, short: Option<char>, long: Option<String>, vshorts: Vec<char>, vlongs: Vec<String>, takes: bool, positional: bool, pvs: Vec<(String, bool)>, hint: u8, global: bool }
 #[derive(Clone, Debug)]
 struct GN { about: Option<String>, name: String, aliases: Vec<String>, args: Vec<GA>, subs: Vec<GN> }
 
@@ -33,14 +33,23 @@ fn gen_gn(rng: &mut Rng, depth: usize, idx: &mut usize, collide: bool, odd: bool
         let i = *idx;
         let positional = !have_pos && rng.chance(1, 6);
         if positional { have_pos = true; }
-        let takes = positional || rng.chance(1, 2);
+        // a flag that may take an optional value: `SetTrue` + `num_args(0..=1)` (`--color[=false]`)
+        let optval = !positional && rng.chance(1, 6);
+        let takes = positional || (!optval && rng.chance(1, 2));
         let short = if !positional && rng.chance(2, 3) { Some(shorts.remove(rng.below(shorts.len()))) } else { None };
         let long = if !positional && (short.is_none() || rng.chance(2, 3)) { Some(format!("o{i}x-long")) } else { None };
         let vshorts = if short.is_some() && rng.chance(1, 4) { vec![shorts.remove(rng.below(shorts.len()))] } else { vec![] };
         let vlongs = if long.is_some() && rng.chance(1, 3) { vec![format!("o{i}x-alias")] } else { vec![] };
         let pvs = if takes && rng.chance(1, 3) { (0..1 + rng.below(3)).map(|j| (format!("pv{i}v{j}"), rng.chance(1, 5))).collect() } else { vec![] };
         let global = !positional && long.is_some() && short.is_none() && depth <= 1 && rng.chance(1, 6);
-        args.push(GA { help: if rng.chance(1, 2) { Some(rng.pick(&["plain help", "it's", "two\nlines", "", "q \u{2018}x\u{2019}"]).to_string()) } else { None }, id: format!("arg{i}"), short, long, vshorts, vlongs, takes, positional, pvs, hint: if takes { rng.below(5) as u8 } else { 0 }, global });
+        args.push(GA { optval, multi: false, required: false, help: if rng.chance(1, 2) { Some(rng.pick(&["plain help", "it's", "two\nlines", "", "q \u{2018}x\u{2019}"]).to_string()) } else { None }, id: format!("arg{i}"), short, long, vshorts, vlongs, takes, positional, pvs, hint: if takes { rng.below(5) as u8 } else { 0 }, global });
+    }
+    // cp-style `<files>... <mode>`: a multi-valued positional followed by a required one with possible values
+    if !have_pos && rng.chance(1, 8) {
+        *idx += 2;
+        let i = *idx;
+        args.push(GA { optval: false, multi: true, required: true, help: None, id: format!("arg{}", i - 1), short: None, long: None, vshorts: vec![], vlongs: vec![], takes: true, positional: true, pvs: vec![], hint: 0, global: false });
+        args.push(GA { optval: false, multi: false, required: true, help: None, id: format!("arg{i}"), short: None, long: None, vshorts: vec![], vlongs: vec![], takes: true, positional: true, pvs: (0..2).map(|j| (format!("pv{i}v{j}"), false)).collect(), hint: 0, global: false });
     }
     let nsubs = if depth >= 3 { 0 } else { match rng.below(4) { 0 => 0, 1 => 1, 2 => 2, _ => 3 } };
     let mut subs = vec![];
@@ -67,6 +76,9 @@ fn build(n: &GN) -> Command {
         for s in &a.vshorts { x = x.visible_short_alias(*s); }
         for l in &a.vlongs { x = x.visible_alias(l.clone()); }
         x = if a.takes { x.action(ArgAction::Set) } else { x.action(ArgAction::SetTrue) };
+        if a.optval { x = x.num_args(0..=1); }
+        if a.multi { x = x.num_args(1..); }
+        if a.required { x = x.required(true); }
         if !a.pvs.is_empty() { x = x.value_parser(a.pvs.iter().map(|(n, h)| PossibleValue::new(n.clone()).hide(*h)).collect::<Vec<_>>()); }
         if a.global { x = x.global(true); }
         if let Some(h) = &a.help { x = x.help(h.clone()); }
@@ -157,7 +169,7 @@ fn level_words(n: &GN, inherited: &[GA], built_has_help_sub: bool) -> Vec<String
     w.push("-h".into());
     for a in n.args.iter().filter(|a| !a.positional) { if let Some(l) = &a.long { for x in &a.vlongs { w.push(format!("--{x}")); } w.push(format!("--{l}")); } }
     w.push("--help".into());
-    for a in n.args.iter().filter(|a| a.positional) { if !a.pvs.is_empty() { for (v, _) in &a.pvs { w.push(v.clone()); } } else { w.push(format!("[{}]", a.id)); } }
+    for a in n.args.iter().filter(|a| a.positional) { if !a.pvs.is_empty() { for (v, _) in &a.pvs { w.push(v.clone()); } } else { w.push(format!("{}{}", if a.required { format!("<{}>", a.id) } else { format!("[{}]", a.id) }, if a.multi { "..." } else { "" })); } }
     for s in &n.subs { w.push(s.name.clone()); for a in &s.aliases { w.push(a.clone()); } }
     if built_has_help_sub && !n.subs.is_empty() { w.push("help".into()); }
     w
@@ -177,7 +189,7 @@ pub fn run(o: &Opts) -> Report {
         let mut tree = gen_gn(&mut rng, 0, &mut idx, collide, odd, &mut used);
         if collide && rng.chance(1, 2) {
             // the shape whose mangled paths coincide: sibling `a-b` next to a nested `a` -> `b`
-            let leaf = |name: &str, i: usize| GN { about: None, name: name.into(), aliases: vec![], args: vec![GA { help: None, id: format!("carg{i}"), short: None, long: Some(format!("col{i}x-long")), vshorts: vec![], vlongs: vec![], takes: false, positional: false, pvs: vec![], hint: 0, global: false }], subs: vec![] };
+            let leaf = |name: &str, i: usize| GN { about: None, name: name.into(), aliases: vec![], args: vec![GA { optval: false, multi: false, required: false, help: None, id: format!("carg{i}"), short: None, long: Some(format!("col{i}x-long")), vshorts: vec![], vlongs: vec![], takes: false, positional: false, pvs: vec![], hint: 0, global: false }], subs: vec![] };
             let (x, y) = *rng.pick(&[("a", "b"), ("b", "a"), ("a-b", "a")]);
             let mut nested = leaf(x, 1); nested.subs.push(leaf(y, 2));
             tree.subs.retain(|s| s.name != x && s.name != format!("{x}-{y}") && !s.aliases.contains(&x.to_string()) && !s.aliases.contains(&format!("{x}-{y}")));
